@@ -62,6 +62,7 @@ fn real_main(args: &[String], props: &[&dyn Prop]) -> i32 {
             let n: u64 = args.get(1).and_then(|s| s.parse().ok()).unwrap_or(200);
             let verbose = args.get(2).map(|s| s == "-v").unwrap_or(false);
             let mut hist: std::collections::BTreeMap<String, u64> = Default::default();
+            let mut ops: std::collections::BTreeMap<&'static str, u64> = Default::default();
             for i in 0..n {
                 let mut r = rng::Rng::new(rng::run_seed(7, "gentest", i));
                 let cfg = gen::prog::GenCfg::swarm(&mut r);
@@ -81,6 +82,13 @@ fn real_main(args: &[String], props: &[&dyn Prop]) -> i32 {
                             if let world::vm::Outcome::Err(e) = &o { println!("--- {i}: {e}\n{}", spec.source); }
                             if let world::vm::Outcome::Panic(l, m) = &o { println!("--- {i}: PANIC {l} {m}\n{}", spec.source); }
                         }
+                        if let world::vm::Outcome::Ok(t) = &o {
+                            use winter_prover::Trace;
+                            let m = t.main_segment();
+                            for r in 0..t.trace_len_summary().main_trace_len().min(t.length() - 1) {
+                                *ops.entry(model::opnames::op_name(model::air_monitor::opcode_at(m, r))).or_insert(0) += 1;
+                            }
+                        }
                         match &o {
                             world::vm::Outcome::Err(e) => format!("exec: {}", framework::msg_key(&format!("{e}"), 50)),
                             _ => o.class(),
@@ -91,6 +99,11 @@ fn real_main(args: &[String], props: &[&dyn Prop]) -> i32 {
             }
             for (k, v) in hist {
                 println!("{v:6}  {k}");
+            }
+            if verbose || args.get(2).map(|s| s == "-ops").unwrap_or(false) {
+                let mut v: Vec<(&str, u64)> = ops.into_iter().collect();
+                v.sort_by_key(|x| x.1);
+                println!("operations executed ({} distinct): {:?}", v.len(), v);
             }
             0
         }
